@@ -480,6 +480,10 @@ def run(tier, procs=None, only=None):
     )
 
 
+# every real-library oracle of this property (each returns (reproduced, detail)); used to confirm structural facts that carry no replay of their own
+ALL_REPLAYS = [lambda c: replay_pose()(c), lambda c: replay_pose('multi')(c), replay_units]
+
+
 def replay(data):
     ok, detail = replay_pose()(data.get("cex") or {})
     print("replay:", detail)
